@@ -266,6 +266,13 @@ func Drive(o DriveOpts) int {
 		"shards":              n,
 		"race_build":          p.Race,
 	}
+	if p.Race {
+		pp := make([]int, n)
+		for i := range pp {
+			pp[i] = shardProcs(p, o.Seed, i)
+		}
+		cov["gomaxprocs_per_shard_0_is_default"] = pp
+	}
 	if len(agg.Exhaustive) > 0 {
 		cov["exhaustive_subspaces"] = agg.Exhaustive
 		all := true
@@ -337,6 +344,24 @@ func trimTo(s string, n int) string {
 	return s
 }
 
+// shardProcs varies the number of Ps between the shard workers of the race-built (concurrent)
+// properties: the same fixtures meet different real-parallel interleavings (2 Ps: long runs of
+// one goroutine between preemptions; 16: true overlap everywhere). 0 = leave the default.
+// The value depends only on (seed, shard), so a case meets the same setting when a run is repeated,
+// and every shard meets every setting over four consecutive seeds.
+var procsCycle = []int{0, 4, 2, 8}
+
+func shardProcs(p *Property, seed int64, shard int) int {
+	if !p.Race || os.Getenv("GOMAXPROCS") != "" {
+		return 0
+	}
+	i := (int64(shard) + seed) % int64(len(procsCycle))
+	if i < 0 {
+		i = -i
+	}
+	return procsCycle[i]
+}
+
 func runShard(o DriveOpts, p *Property, bin, work string, shard, n, timeoutS int) *shardResult {
 	res := &shardResult{shard: shard, sum: &Summary{Counters: map[string]int64{}, Exhaustive: map[string]Exhaustive{}}}
 	from := 0
@@ -349,6 +374,9 @@ func runShard(o DriveOpts, p *Property, bin, work string, shard, n, timeoutS int
 		args := []string{"-worker", "-prop", o.Prop, "-tier", o.Tier, "-seed", fmt.Sprint(o.Seed), "-shard", fmt.Sprint(shard), "-nshards", fmt.Sprint(n), "-from", fmt.Sprint(from), "-out", out}
 		cmd := exec.Command(bin, args...)
 		cmd.Env = append(os.Environ(), "GORACE=halt_on_error=0 log_path="+racePrefix+" history_size=4", "VERIF_WORKDIR="+work)
+		if gmp := shardProcs(p, o.Seed, shard); gmp > 0 {
+			cmd.Env = append(cmd.Env, fmt.Sprintf("GOMAXPROCS=%d", gmp))
+		}
 		ef, _ := os.Create(errPath)
 		cmd.Stdout = ef
 		cmd.Stderr = ef
